@@ -356,6 +356,9 @@ fn collect_fields<'a>(
                         continue;
                     } else if ctx.schema_env.registry.enable_federation
                         && field.node.name.node == "_entities"
+                        && ctx.schema_env.registry.introspection_mode
+                            != IntrospectionMode::IntrospectionOnly
+                        && ctx.query_env.introspection_mode != IntrospectionMode::IntrospectionOnly
                     {
                         collect_entities_field(fields, schema, ctx, parent_value, field);
                         continue;
